@@ -298,7 +298,25 @@ def replay_reused_fluid(model, nx=4):
                             "inputs": {}}
 
 
-def job_rows(job, cls, nx, nt, schedule=False, reachable=False, tdtype="f8", reused_fluid=False, tseries=False):
+def replay_rows_after_recovery(model, cls="SinglePhaseReservoir", nx=4):
+    """Real run, then recovery_factor() and the interpolator (as every plot and fit does): the stored levels are still the
+    backward-Euler updates they were right after simulate."""
+    import numpy as np
+    from bluebonnet.flow import reservoir as rr
+    t = np.linspace(0, 1.2, 12) ** 2
+    r = rr.IdealReservoir(max(nx, 6), 1000.0, 8000.0, None) if cls == "IdealReservoir" else rr.SinglePhaseReservoir(max(nx, 6), 1000.0, 8000.0, _real_fluid())
+    r.simulate(t)
+    before = np.array(r.pseudopressure, dtype=float, copy=True)
+    r.recovery_factor()
+    r.recovery_factor_interpolator()
+    after = np.asarray(r.pseudopressure, float)
+    bad = after.shape != before.shape or not np.array_equal(after, before)
+    cols = [] if not bad or after.shape != before.shape else np.nonzero(np.any(after != before, axis=0))[0].tolist()
+    return bad, {"what": f"{cls}: recovery_factor() / the interpolator changed the stored levels (nodes {cols}): they are no longer the updates simulate stored" if bad
+                 else f"{cls}: stored levels untouched by the recovery calls", "inputs": {}}
+
+
+def job_rows(job, cls, nx, nt, schedule=False, reachable=False, tdtype="f8", reused_fluid=False, tseries=False, after_recovery=False):
     """reachable=False: every level is havoc'd inside C01's bounds (covers any number of steps; a counterexample may
     start from a level no run reaches and is then not confirmed by the replay).  reachable=True: the levels are the
     exact solutions from the real initial state (the first nt-1 steps only), so a counterexample is a real run."""
@@ -307,7 +325,7 @@ def job_rows(job, cls, nx, nt, schedule=False, reachable=False, tdtype="f8", reu
     job.stub("linear solve: capturing stub (records A, b, keyword arguments; returns an arbitrary vector - every level is havoc'd, "
              "bounded above by the initial value as C01 establishes)", "scipy.sparse.diags: exact dense model", "fluid*: contract stub")
     job.bound(rows_nx=nx, rows_steps=nt - 1)
-    tag = f"{cls}[nx={nx},steps={nt - 1}{',schedule' if schedule else ''}{',from the initial state' if reachable else ''}{',integer time grid' if tdtype != 'f8' else ''}{',object re-used after its fluid was replaced' if reused_fluid else ''}{',time grid a pandas Series' if tseries else ''}]"
+    tag = f"{cls}[nx={nx},steps={nt - 1}{',schedule' if schedule else ''}{',from the initial state' if reachable else ''}{',integer time grid' if tdtype != 'f8' else ''}{',object re-used after its fluid was replaced' if reused_fluid else ''}{',time grid a pandas Series' if tseries else ''}{',read after recovery_factor()' if after_recovery else ''}]"
     if reachable:
         job.solve_defaults = {"elim": True}
     hold = {}
@@ -349,6 +367,8 @@ def job_rows(job, cls, nx, nt, schedule=False, reachable=False, tdtype="f8", reu
             hold["hi"] = Q(1)
             r = mod.IdealReservoir(Q(nx), fresh("pf"), fresh("pi", pos=True), None)
             r.simulate(t)
+            if after_recovery:
+                r.recovery_factor()
             return r, None, t, list(SS.LinSolve.calls)
         fluid = FluidStub()
         hold["hi"] = fluid.m_i
@@ -365,12 +385,16 @@ def job_rows(job, cls, nx, nt, schedule=False, reachable=False, tdtype="f8", reu
             r.simulate(t, pressure_fracface=SymArray([fresh(f"pfs{k}") for k in range(nt)], "f8"))
         else:
             r.simulate(t)
+        if after_recovery:
+            r.recovery_factor()          # what every plot and fit calls next: the stored levels are read after it
         return r, fluid, t, list(SS.LinSolve.calls)
 
     rp = (replay_reused_fluid, {"nx": nx}) if reused_fluid else (replay_rows, {"cls": cls, "nx": nx, "nt": nt, "schedule": schedule, "tdtype": tdtype})
     if tseries:
         from .c01 import replay_series_time
         rp = (replay_series_time, {"cls": cls, "nx": nx})
+    if after_recovery:
+        rp = (replay_rows_after_recovery, {"cls": cls, "nx": nx})
     for k, pr in enumerate(paths(job, run, [], max_paths=16)):
         if pr.exc is not None:
             if tseries:
@@ -514,7 +538,7 @@ def job_flag(job, cls, nx=4):
 
 
 # concrete replays run on the real code when the changed code uses something the engine does not model (harness.finish)
-FALLBACK = [(replay_rows, {}), (replay_rows, {"cls": "IdealReservoir"}), (replay_rows, {"schedule": True}), (replay_rows, {"tdtype": "i8"}), (replay_tolerance, {}), (replay_flag, {}), (replay_series_time, {}), (replay_series_time, {"cls": "IdealReservoir"})]
+FALLBACK = [(replay_rows, {}), (replay_rows, {"cls": "IdealReservoir"}), (replay_rows, {"schedule": True}), (replay_rows, {"tdtype": "i8"}), (replay_tolerance, {}), (replay_flag, {}), (replay_series_time, {}), (replay_series_time, {"cls": "IdealReservoir"}), (replay_rows_after_recovery, {}), (replay_rows_after_recovery, {"cls": "IdealReservoir"})]
 
 
 def jobs(tier):
@@ -527,6 +551,7 @@ def jobs(tier):
         for nx in ((3, 4) if tier == "quick" else (3, 4, 5, 6)):
             out.append((f"rows-reach-{cls[:6]}-{nx}", lambda j, c=cls, n=nx: job_rows(j, c, n, 3, schedule=(c != "IdealReservoir"), reachable=True)))
         out.append((f"rows-reach-inttime-{cls[:6]}-3", lambda j, c=cls: job_rows(j, c, 3, 3, schedule=False, reachable=True, tdtype="i8")))
+        out.append((f"rows-reach-after-recovery-{cls[:6]}-4", lambda j, c=cls: job_rows(j, c, 4, 3, schedule=False, reachable=True, after_recovery=True)))
         out.append((f"rows-reach-series-time-{cls[:6]}-3", lambda j, c=cls: job_rows(j, c, 3, 3, schedule=False, reachable=True, tseries=True)))
         if cls != "IdealReservoir":
             out.append(("rows-reach-reused-fluid-3", lambda j: job_rows(j, "SinglePhaseReservoir", 3, 3, reachable=True, reused_fluid=True)))
